@@ -40,7 +40,8 @@ var defaultNoEffect = []string{
 	"github.com/janelia-flyem/dvid/dvid.TimeCriticalf", "github.com/janelia-flyem/dvid/dvid.NewTimeLog", "github.com/janelia-flyem/dvid/dvid.TimeLog.",
 	"log.Printf", "log.Println", "log.Print", "fmt.Printf", "fmt.Println", "fmt.Print", "fmt.Fprintf",
 	"github.com/janelia-flyem/dvid/dvid.SendEmail",
-	"sync.WaitGroup.", "sync/atomic.", "time.Sleep", "runtime.Gosched",
+	"sync.WaitGroup.", "sync/atomic.", "time.Sleep", "runtime.Gosched", "math/rand.", "time.Time.", "time.Duration.",
+	"encoding/gob.", "github.com/janelia-flyem/dvid/dvid.NewUUID",
 	"github.com/janelia-flyem/dvid/server.ThrottledOpStart", "github.com/janelia-flyem/dvid/server.ThrottledOpDone",
 }
 
@@ -72,7 +73,23 @@ func (e *Engine) isNoEffect(key string) bool {
 }
 
 func (e *Engine) isPureMethod(c *ssa.CallCommon) bool {
-	return e.pureMethods[ifaceMethodKey(c)]
+	return e.pureMethods[ifaceMethodKey(c)] || e.isStoreMethod(c)
+}
+
+// isStoreMethod: methods of the storage engine interfaces (package storage) operate on the
+// external store only; they are trusted not to modify objects of the program heap.
+func (e *Engine) isStoreMethod(c *ssa.CallCommon) bool {
+	t := c.Value.Type()
+	n, ok := t.(*types.Named)
+	if !ok || n.Obj().Pkg() == nil || n.Obj().Pkg().Path() != modPath+"/storage" {
+		return false
+	}
+	switch n.Obj().Name() {
+	case "KeyValueDB", "OrderedKeyValueDB", "KeyValueGetter", "KeyValueSetter", "OrderedKeyValueGetter", "OrderedKeyValueSetter",
+		"Batch", "KeyValueBatcher", "RequestBuffer", "BufferableOps", "KeyValueTimestampGetter", "BlobStore", "WriteLog", "ReadLog", "LogReadable", "LogWritable":
+		return true
+	}
+	return false
 }
 
 func (e *Engine) typesPkg(path string) *types.Package {
@@ -82,13 +99,10 @@ func (e *Engine) typesPkg(path string) *types.Package {
 	return nil
 }
 
-func (e *Engine) lineText(p token.Position) string {
-	if !p.IsValid() {
-		return "?"
-	}
-	ls, ok := e.fileLines[p.Filename]
+func (e *Engine) loadLines(filename string) []string {
+	ls, ok := e.fileLines[filename]
 	if !ok {
-		f, err := os.Open(p.Filename)
+		f, err := os.Open(filename)
 		if err == nil {
 			sc := bufio.NewScanner(f)
 			sc.Buffer(make([]byte, 1<<20), 1<<20)
@@ -97,15 +111,30 @@ func (e *Engine) lineText(p token.Position) string {
 			}
 			f.Close()
 		}
-		e.fileLines[p.Filename] = ls
+		e.fileLines[filename] = ls
 	}
+	return ls
+}
+
+// lineText: normalised source line, truncated (used in obligation names).
+func (e *Engine) lineText(p token.Position) string {
+	t := e.lineTextFull(p)
+	if len(t) > 70 {
+		t = t[:70]
+	}
+	return t
+}
+
+// lineTextFull: normalised source line without its trailing comment.
+func (e *Engine) lineTextFull(p token.Position) string {
+	if !p.IsValid() {
+		return "?"
+	}
+	ls := e.loadLines(p.Filename)
 	if p.Line-1 < len(ls) && p.Line >= 1 {
 		t := strings.Join(strings.Fields(ls[p.Line-1]), " ")
 		if i := strings.Index(t, "//"); i > 0 {
 			t = strings.TrimSpace(t[:i])
-		}
-		if len(t) > 70 {
-			t = t[:70]
 		}
 		return t
 	}
@@ -201,6 +230,10 @@ func newVC(e *Engine, root string) *VC {
 func (e *Engine) verifyFunc(fn *ssa.Function, con *Contract) *VC {
 	key := funcKey(fn)
 	vc := newVC(e, key)
+	if con != nil && con.Flags["safety_off"] {
+		vc.safetyOff = true
+		vc.note("safety_off: panic-freedom of this function and preconditions of its callees are not checked; callee postconditions are not used")
+	}
 	st := &State{pc: "true", cells: map[*Cell]Val{}, heap: map[string]string{}, epoch: "0", ghost: map[string]Val{}, locks: map[string]int{}}
 	st.next = vc.sc.fresh("next0", sortRef)
 	vc.sc.assert(sx(">", st.next, "0"))
@@ -240,6 +273,29 @@ func (e *Engine) verifyFunc(fn *ssa.Function, con *Contract) *VC {
 				PC: st.pc, Goal: "false", Mark: vc.sc.mark(), Func: key, Cover: true})
 		}
 	}
+	if con != nil {
+		genv := vc.contractEnv(fn, args, st, pre, nil)
+		for _, g := range con.Ghosts {
+			gt := resolveType(g.Type, pkgOf(fn))
+			var v Val
+			if g.Init.Op == "call" && g.Init.Name == "arbitrary" && gt != nil {
+				v, _ = vc.symbolic(gt, "ghost."+g.Name)
+			} else if g.Init.Op == "nil" && gt != nil {
+				v = vc.zero(gt)
+			} else {
+				v = genv.eval(g.Init)
+			}
+			if gt == nil || genv.err != nil {
+				vc.unsupported("ghost %s: %v", g.Name, genv.err)
+				genv.err = nil
+				continue
+			}
+			if v.K == KConst {
+				v = vc.convert(st, v, gt, token.Position{})
+			}
+			st.ghost[g.Name] = v
+		}
+	}
 	entry := st.clone()
 	res, out := vc.execFunc(fn, args, nil, st, 0, con, true)
 	vc.obls = append(vc.obls, &Obligation{Name: key + "#cover.exit", Kind: "cover", Desc: "some return is reachable (assumptions are consistent)", Pos: e.fset.Position(fn.Pos()),
@@ -259,6 +315,11 @@ func (e *Engine) verifyFunc(fn *ssa.Function, con *Contract) *VC {
 					continue
 				}
 				vc.oblige(r.st, "ensures", fmt.Sprintf("%s#ensures%d@%s", key, i+1, site), "postcondition: "+en.Src, e.fset.Position(r.pos), t)
+			}
+		}
+		for i, cl := range con.Asserts {
+			if !vc.firedAnchors[cl] {
+				vc.oblige(out, "assert", fmt.Sprintf("%s#anchor%d", key, i+1), fmt.Sprintf("anchor %q of a %s clause matches no executed source line", cl.Match, cl.Kind), e.fset.Position(fn.Pos()), "false")
 			}
 		}
 		vc.frameObligations(fn, con, args, entry, out, next0)
@@ -312,6 +373,14 @@ func (vc *VC) frameObligations(fn *ssa.Function, con *Contract, args []Val, entr
 				continue
 			}
 			v := arrayAsSlice(env.eval(ex))
+			if v.K == KRef && v.T != nil {
+				if mt, ok := v.T.Underlying().(*types.Map); ok {
+					for hn := range vc.mapHeaps(mt) {
+						excs[hn] = append(excs[hn], exc{ref: v.S})
+					}
+				}
+				continue
+			}
 			if v.K != KSlice {
 				continue
 			}
